@@ -29,6 +29,7 @@ func c18(c *Ctx) {
 	c18tls(c)
 	c18connect(c)
 	c18ports(c)
+	c18trustedHook(c)
 }
 
 func dialerField(t *core.Term, name string) bool {
@@ -262,6 +263,21 @@ func c18firstHop(c *Ctx) {
 			}
 		})
 		r.Check("C18.first-hop", shortFn(pf), "proxy-kind-routing", pf.Pos(), ok && nHTTP > 0 && nOther > 0, why)
+	}
+}
+
+// c18trustedHook: NetDialTLSContext is the one dial hook trusted to have done TLS itself (the property
+// says so for hooks the application supplies).  The package must therefore never fill it in on a Dialer it
+// builds (NewClient): whatever it put there would be used for wss URLs without any TLS handshake.
+func c18trustedHook(c *Ctx) {
+	r := c.R
+	f := c.P.Field("Dialer", "NetDialTLSContext")
+	sites := c.P.FieldStoreSites(f)
+	for _, s := range sites {
+		r.Fail("C18.tls-everywhere", shortFn(s.Parent()), "package-sets-NetDialTLSContext", s.Pos(), shortFn(s.Parent())+" assigns Dialer.NetDialTLSContext: a dial function the library itself installs there is used for wss URLs without TLS handshake or certificate verification")
+	}
+	if len(sites) == 0 {
+		r.Pass("C18.tls-everywhere", "package", "package-sets-NetDialTLSContext", c.fn("NewClient").Pos(), "no function of the package assigns Dialer.NetDialTLSContext (0 store sites among all Dialer values built in the package)")
 	}
 }
 
